@@ -12,12 +12,12 @@ package simrt
 
 import (
 	"bytes"
-	"strings"
 	"fmt"
 	"reflect"
 	"runtime"
 	"sort"
 	"strconv"
+	"strings"
 	"sync"
 	"testing/synctest"
 	"time"
@@ -46,7 +46,7 @@ type Task struct {
 // Sched is the scheduler of one simulated run.
 type Sched struct {
 	mu      sync.Mutex // real mutex: protects the scheduler's own tables
-	tasks   []*Task // (no Go map here: the runtime's map functions report to the race detector whoever calls them)
+	tasks   []*Task    // (no Go map here: the runtime's map functions report to the race detector whoever calls them)
 	parked  []*Op
 	notify  chan struct{}
 	dead    bool
@@ -84,6 +84,7 @@ func goid() int64 {
 }
 
 // NewSched creates a scheduler; the calling goroutine becomes the root task.
+//
 //go:norace
 func NewSched(choose func(n int, label string) int) *Sched {
 	s := &Sched{notify: make(chan struct{}, 1), Choose: choose, Released: map[string]int{}}
@@ -93,6 +94,7 @@ func NewSched(choose func(n int, label string) int) *Sched {
 }
 
 // ObjName hands out deterministic object names ("mutex#3").
+//
 //go:norace
 func (s *Sched) ObjName(kind string) string {
 	raceDisable()
@@ -159,6 +161,7 @@ func (s *Sched) logf(parts ...string) {
 var epoch time.Time
 
 // Event lets harness code add a line to the event log (from the running task).
+//
 //go:norace
 func (s *Sched) Event(format string, a ...any) {
 	line := fmt.Sprintf(format, a...) // formatted by the calling task, outside any RaceDisable window
@@ -170,6 +173,7 @@ func (s *Sched) Event(format string, a ...any) {
 }
 
 // Current returns the task of the calling goroutine (nil if unknown).
+//
 //go:norace
 func (s *Sched) Current() *Task {
 	raceDisable()
@@ -193,6 +197,7 @@ func panicString(r any) string {
 }
 
 // Park blocks the calling goroutine until the scheduler releases op.
+//
 //go:norace
 func (s *Sched) Park(op *Op) {
 	raceDisable() // the scheduler's own hand-offs must not create happens-before edges between tasks
@@ -226,6 +231,7 @@ func (s *Sched) Park(op *Op) {
 }
 
 // Yield is an explicit scheduling point.
+//
 //go:norace
 func Yield(label string) {
 	if s := Active; s != nil {
@@ -234,6 +240,7 @@ func Yield(label string) {
 }
 
 // Go starts f as a task of the active simulation (native goroutine otherwise).
+//
 //go:norace
 func Go(f func()) {
 	s := Active
@@ -245,6 +252,7 @@ func Go(f func()) {
 }
 
 // GoNamed starts a task with an explicit name suffix.
+//
 //go:norace
 func (s *Sched) GoNamed(name string, daemon bool, f func()) {
 	parent := s.Current()
@@ -305,6 +313,7 @@ func (s *Sched) taskRecover(t *Task) {
 // Run drives the simulation until done() is true while everything is quiescent, or maxSteps
 // scheduling decisions, or until the fake clock reaches limit.  It returns "" or a reason
 // ("deadlock: ...", "step budget", "time limit").
+//
 //go:norace
 func (s *Sched) Run(done func() bool, maxSteps int, limit time.Duration) string {
 	raceDisable()
@@ -433,6 +442,7 @@ func (s *Sched) describeParked() string {
 
 // Kill ends the run: every parked goroutine (and every goroutine that reaches a park point
 // later) exits.
+//
 //go:norace
 func (s *Sched) Kill() {
 	s.mu.Lock()
@@ -446,6 +456,7 @@ func (s *Sched) Kill() {
 }
 
 // Dead reports whether the run has been ended.
+//
 //go:norace
 func (s *Sched) Dead() bool {
 	s.mu.Lock()
@@ -454,10 +465,12 @@ func (s *Sched) Dead() bool {
 }
 
 // SetEpoch records the fake time origin of the run (call inside the bubble).
+//
 //go:norace
 func SetEpoch() { epoch = time.Now() }
 
 // Now returns the simulated time since the start of the run.
+//
 //go:norace
 func Now() time.Duration { return time.Since(epoch) }
 
